@@ -51,17 +51,43 @@ ALL_SRC = [
     'src/writer/page_writer.c',
     'src/writer/row_group_writer.c',
 ]
-RP_CLOSE = dict(kind='direct', harness='replay/direct/writer_close.c', sources=ALL_SRC, vars={'owns': 'cex_owns'})
+RP_CLOSE = dict(kind='direct', harness='replay/direct/writer_close.c', sources=ALL_SRC, vars={})
+
+F_DEF = ['CQV_EXACT_MEMCMP=8', 'CQV_MEMCPY_EXACT=16']
+F = dict(harness='harness/C04/footer.c', props=['C04', 'C18'], includes=['.'], extra_sources=[], loop_contracts=False,
+         unwind=17, checks=LEAK,
+         trusted=['stubs/stdio_stubs.c: stdio source model (fseek/ftell/fread may fail or come up short, never deliver bytes '
+                  'outside the file), vsnprintf terminates within its capacity, exact 4-byte memcmp',
+                  'harness/C04/footer.c + contracts/footer.ovl: assumed contracts for parquet_parse_file_metadata, '
+                  'build_schema, arena'])
 
 JOBS = [
-    dict(name='c18_write_magic', entry='h_write_magic', loop_contracts=False, functions=['write_magic'], wip=True, **W),
+    # ---- C18: writer under a failing sink ("harness is the contract"; stdio = stubs/stdio_stubs.c) ----
+    dict(name='c18_write_magic', entry='h_write_magic', loop_contracts=False, functions=['write_magic'], est_s=2, **W),
     dict(name='c18_ensure_header_written', entry='h_ensure_header', loop_contracts=False,
-         functions=['ensure_header_written', 'write_magic'], wip=True, **W),
-    dict(name='c18_flush_row_group_b', entry='h_flush_row_group', functions=['flush_row_group'], wip=True, **BND, **W),
+         functions=['ensure_header_written', 'write_magic'], est_s=3, **W),
+    # flush_row_group's column loop: a loop contract (contracts/file_writer.ovl) makes (&columns[i].metadata)->x a
+    # byte update at a symbolic offset into an array of structs and the SAT back end runs out of memory (8 GB)
+    # => the loop is unwound for <= 2 columns instead; everything else (sizes, counters, capacities) is symbolic.
+    dict(name='c18_flush_row_group_b', entry='h_flush_row_group', functions=['flush_row_group'], est_s=40, **BND, **W),
     dict(name='c18_new_row_group_b', entry='h_new_row_group',
-         functions=['carquet_writer_new_row_group', 'ensure_header_written', 'flush_row_group'], wip=True, **BND, **W),
-    dict(name='c18_close_io_b', entry='h_close_io', functions=['carquet_writer_close'], replayer=RP_CLOSE, wip=True, **BND, **W),
-    dict(name='c18_close_resources_b', entry='h_close_resources', functions=['carquet_writer_close'], checks=LEAK,
-         wip=True, **BND, **W),
-    dict(name='c18_abort_b', entry='h_abort', functions=['carquet_writer_abort'], checks=LEAK, wip=True, **BND, **W),
+         functions=['carquet_writer_new_row_group', 'ensure_header_written', 'flush_row_group'], est_s=45, **BND, **W),
+    dict(name='c18_close_io_b', entry='h_close_io', functions=['carquet_writer_close'], replayer=RP_CLOSE, est_s=100,
+         wip=True,
+         note='FINDING (genuine, unchanged tree): carquet_writer_close ignores the results of fflush() and fclose(); '
+              'it returns CARQUET_OK although the sink failed (natively: /dev/full, every call OK, no byte stored). '
+              'Obligations "close returns OK => no sink failure" and "=> accepted bytes were flushed" fail; the job is ok '
+              'on a copy with the 2-hunk fix (check fflush, check fclose). Flip to wip=False once /repo has the fix '
+              'or known_findings.json lists it.',
+         **BND, **W),
+    dict(name='c18_close_resources_b', entry='h_close_resources', functions=['carquet_writer_close', 'build_file_metadata'],
+         checks=LEAK, est_s=100, **BND, **W),
+    dict(name='c18_abort_b', entry='h_abort', functions=['carquet_writer_abort'], checks=LEAK, est_s=4, **BND, **W),
+    # ---- footer validation of the three open paths (C04 + C18), proof level, loop-free ----
+    dict(name='c04_read_footer', entry='h_read_footer', functions=['read_footer'], replace=['build_schema'],
+         overlays=['contracts/footer.ovl'], defines=F_DEF + ['CQV_SRC=1'], est_s=15, **F),
+    dict(name='c04_read_footer_mmap', entry='h_read_footer_mmap', functions=['read_footer_mmap'], replace=['build_schema'],
+         overlays=['contracts/footer.ovl'], defines=F_DEF + ['CQV_SRC=1'], est_s=10, **F),
+    dict(name='c04_open_buffer', entry='h_open_buffer', functions=['carquet_reader_open_buffer'],
+         defines=F_DEF + ['CQV_SRC=2'], cbmc_flags=['--malloc-may-fail', '--malloc-fail-null'], est_s=10, **F),
 ]
